@@ -1045,6 +1045,7 @@ class TokenizerCore:
             elif token_type == TokenType.BIT_STRING:
                 base = 2
             elif token_type == TokenType.HEREDOC_STRING:
+                heredoc_line, heredoc_col = self._line, self._col
                 self._advance()
 
                 if self._char == end:
@@ -1065,6 +1066,8 @@ class TokenizerCore:
                         self._advance(-1)
 
                     self._advance(-len(tag))
+                    # Rewinding does not undo line breaks counted while looking for the tag
+                    self._line, self._col = heredoc_line, heredoc_col
                     self._add(self.heredoc_string_alternative)
                     return True
 
